@@ -33,6 +33,7 @@ static Eigen::MatrixXd round_sym(const Eigen::MatrixXd &A) {
   return B;
 }
 
+static bool g_round6 = true;
 static Eigen::MatrixXd gen_matrix(Rng &r, int n, int kind) {
   Eigen::VectorXd d(n);
   switch (kind) {
@@ -52,7 +53,7 @@ static Eigen::MatrixXd gen_matrix(Rng &r, int n, int kind) {
       Eigen::MatrixXd A = Eigen::MatrixXd::Zero(n, n);
       for (int i = 0; i < n; i++) A(i, i) = std::sqrt((double)(i + 1));
       for (int i = 0; i < n; i++) for (int j = i + 1; j < n; j++) A(i, j) = A(j, i) = 0.01 / ((double)(i - j) * (double)(i - j));
-      return round_sym(A);
+      return g_round6 ? round_sym(A) : A;      // unrounded: the doubles of the upstream test themselves (exact rationals all the same)
     }
     default:  // block decoupled: the lowest eigenvalue lives in a block whose diagonal entries are large
     {
@@ -73,14 +74,18 @@ static void emit(std::ostringstream &o, const Eigen::MatrixXd &M) {
   for (Index i = 0; i < M.rows(); i++) for (Index j = 0; j < M.cols(); j++) o << " " << dexact(M(i, j));
 }
 
+static void symm_run(Rng &r, int n, int kind, int neigen, int ci, int ui, int ti, int itmax, int mss);
+static void symm_solve(const Eigen::MatrixXd &A, int kind, int neigen, int ci, int ui, int ti, int itmax, int mss);
+
 static void symm_case(Rng &r) {
   int n = 4 + (int)r.below(20);
   int kind = (int)r.below(7);
   if (kind == 6) kind = 5; else if (kind == 5) kind = 6;   // 5 = block decoupled (the `default` branch), 6 = upstream family
   if (kind == 5 && n < 6) n = 6;
-  if (kind == 6) { n = 12 + (int)r.below(12); }
+  if (kind == 6) { n = 12 + (int)r.below(20); }
   int neigen = 1 + (int)r.below(std::max(1, n / 4));
-  if (kind == 6 && r.coin()) neigen = n / 3;    // many roots
+  // many roots: the correction vectors of one iteration become nearly dependent (the regime of the upstream test: 10 roots and more)
+  if (kind == 6 && r.coin(2, 3)) neigen = n / 4 + (int)r.below(std::max(1, n / 4));
   static const char *corr[] = {"DPR", "OLSEN"};
   static const char *upd[] = {"min", "safe", "max"};
   static const char *tols[] = {"loose", "normal", "strict", "lapack"};
@@ -88,7 +93,24 @@ static void symm_case(Rng &r) {
   int ci = (int)r.below(2), ui = (int)r.below(3), ti = (int)r.below(4);
   int itmax = r.coin(1, 5) ? 2 + (int)r.below(4) : 50;
   int mss = r.coin(1, 3) ? neigen * 2 + (int)r.below(4) : 0;     // tight search space forces restarts
+  g_round6 = r.coin();
+  symm_run(r, n, kind, neigen, ci, ui, ti, itmax, mss);
+}
+
+static void symm_run(Rng &r, int n, int kind, int neigen, int ci, int ui, int ti, int itmax, int mss) {
+  static const char *corr[] = {"DPR", "OLSEN"};
+  static const char *upd[] = {"min", "safe", "max"};
+  static const char *tols[] = {"loose", "normal", "strict", "lapack"};
+  static const double tolv[] = {1e-3, 1e-4, 1e-5, 1e-9};
   Eigen::MatrixXd A = gen_matrix(r, n, kind);
+  symm_solve(A, kind, neigen, ci, ui, ti, itmax, mss);
+}
+
+static void symm_solve(const Eigen::MatrixXd &A, int kind, int neigen, int ci, int ui, int ti, int itmax, int mss) {
+  static const char *corr[] = {"DPR", "OLSEN"};
+  static const char *upd[] = {"min", "safe", "max"};
+  static const char *tols[] = {"loose", "normal", "strict", "lapack"};
+  static const double tolv[] = {1e-3, 1e-4, 1e-5, 1e-9};
   Logger log;
   log.setReportLevel(Log::error);
   log.setMultithreading(false);
@@ -154,7 +176,30 @@ int main(int argc, char **argv) {
   Rng r(env_seed() * 7919 + 9);
   if (mode == "replay") {
     std::string line;
-    while (std::getline(std::cin, line)) if (line.rfind("C09", 0) == 0) printf("%s\n", line.c_str());
+    while (std::getline(std::cin, line)) {
+      if (line.rfind("C09", 0) != 0) continue;
+      std::vector<std::string> t = split_ws(line);
+      if (t.size() > 12 && t[1] == "symm") {
+        // re-run the solver on the matrix and the options of the line
+        int kind = atoi(t[2].c_str()), neigen = atoi(t[3].c_str());
+        int ci = t[4] == "OLSEN" ? 1 : 0, ui = t[5] == "min" ? 0 : t[5] == "safe" ? 1 : 2;
+        double tol = dparse(t[6], t[7]);
+        int ti = tol > 5e-4 ? 0 : tol > 5e-5 ? 1 : tol > 5e-7 ? 2 : 3;
+        int itmax = atoi(t[8].c_str()), mss = atoi(t[9].c_str());
+        int n = atoi(t[10].c_str());
+        if ((int)t.size() < 12 + 2 * n * n) continue;
+        Eigen::MatrixXd A(n, n);
+        for (int i = 0; i < n; i++) for (int j = 0; j < n; j++) A(i, j) = dparse(t[12 + 2 * (i * n + j)], t[13 + 2 * (i * n + j)]);
+        symm_solve(A, kind, neigen, ci, ui, ti, itmax, mss);
+      } else printf("%s\n", line.c_str());     // Hamiltonian lines: re-judged as recorded
+    }
+    return 0;
+  }
+  if (mode == "grid") {
+    // deterministic grid on the family of the upstream unit test (sqrt(i) diagonal, 0.01/(i-j)^2 coupling): many roots, every update size
+    g_round6 = false;
+    for (int n : {16, 20, 24, 28}) for (int ne = n / 4; ne <= n / 2; ne += 2) for (int ui = 0; ui < 3; ui++) for (int ti = 1; ti < 4; ti += 2) for (int ci = 0; ci < (n < 28 ? 1 : 2); ci++)
+      symm_run(r, n, 6, ne, ci, ui, ti, 50, 0);
     return 0;
   }
   for (long i = 0; i < N; i++) { if (r.coin(1, 6)) ham_case(r); else symm_case(r); }
